@@ -1,8 +1,17 @@
 //! Per-property check drivers (generic over a registry of subjects).
+pub mod bodies;
 pub mod common;
 pub mod c01;
+pub mod c02;
 pub mod c03;
 pub mod c04;
+pub mod c06;
+pub mod c07;
+pub mod c08;
+pub mod c09;
+pub mod c10;
+pub mod c11;
+pub mod c15;
 pub mod c12;
 
 use subjects::Registry;
@@ -51,9 +60,17 @@ pub fn main_with(reg: Registry, extra: serde_json::Map<String, serde_json::Value
     }
     match args.property.as_str() {
         "C01" => c01::run(&ctx, &reg),
+        "C02" => c02::run(&ctx, &reg),
         "C03" => c03::run(&ctx, &reg),
         "C04" => c04::run(&ctx, &reg),
+        "C06" => c06::run(&ctx, &reg),
+        "C07" => c07::run(&ctx, &reg),
+        "C08" => c08::run(&ctx, &reg),
+        "C09" => c09::run(&ctx, &reg),
+        "C10" => c10::run(&ctx, &reg),
+        "C11" => c11::run(&ctx, &reg),
         "C12" => c12::run(&ctx, &reg),
+        "C15" => c15::run(&ctx, &reg),
         other => {
             println!("INCONCLUSIVE property={other} reason=no driver for this property in this binary");
             2
